@@ -420,7 +420,9 @@ func (c1 int64Const) representedBy(typ reflect.Type) (constant, error) {
 		}
 	case reflect.Float32, reflect.Complex64:
 		return float64Const(float32(c1)), nil
-	case reflect.Float64, reflect.Complex128:
+	case reflect.Float64:
+		return float64Const(c1), nil
+	case reflect.Complex128:
 		return c1, nil
 	default:
 		return nil, errNotRepresentable
